@@ -9,6 +9,9 @@ Only the standard library and the generated code are imported: `models.<package>
       -> {"id","ok","err","classes":[...]}            compile() + import of models/<module>.py
   {"op":"default","id":..,"module":..,"cls":"Root"}
       -> {"id","ok","enc"|"err","stage"}              json of `Root()`                       (C10)
+  {"op":"default2","id":..,"module":..,"cls":"Root"}
+      -> the same for a SECOND `Root()` built after every list / dict reachable from a first `Root()` was mutated in place
+         (a default must not be shared between instances: C10 "the value produced by the generated default constructor")
   {"op":"roundtrip","id":..,"module":..,"cls":..,"doc":<json>}
       -> {"id","ok","enc"|"err","stage"}              json of `Root.from_json(doc)`          (C11)
   {"op":"encode","id":..,"module":..,"cls":..,"doc":<json>}
@@ -31,6 +34,23 @@ def short(e):
             where = " @%s:%s" % (os.path.basename(fr.filename), fr.name)
             break
     return ("%s: %s%s" % (type(e).__name__, e, where))[:400]
+
+
+def mutate(o, depth=0):
+    """in-place mutation of every collection reachable from a generated object"""
+    if depth > 8:
+        return
+    if isinstance(o, list):
+        for e in list(o):
+            mutate(e, depth + 1)
+        o.append("__mutated__")
+    elif isinstance(o, dict):
+        for e in list(o.values()):
+            mutate(e, depth + 1)
+        o["__mutated__"] = "__mutated__"
+    elif hasattr(o, "__dict__") and callable(getattr(o, "to_json", None)):
+        for e in list(vars(o).values()):
+            mutate(e, depth + 1)
 
 
 def main():
@@ -85,6 +105,13 @@ def main():
                 cls = getattr(mod, c["cls"])
                 if c["op"] == "default":
                     stage = "construct"
+                    obj = cls()
+                    stage = "encode"
+                    r["enc"] = encode(obj)
+                elif c["op"] == "default2":
+                    stage = "construct"
+                    first = cls()
+                    mutate(first)
                     obj = cls()
                     stage = "encode"
                     r["enc"] = encode(obj)
